@@ -96,6 +96,15 @@ def catalog():
         "threads": [[sub("f0", [["retobj"]]), sub("f1", [["retobj"]]), ["sleep", 0.5], ["run", "ex", 0], ["sleep", 1.0], ["cancel", "f1"],
                      ["forget", "f0"], ["forget", "f1"], ["forget_base"], ["sleep", 0.1], ["gc"], ["alive"], ["threads"]]],
         "settle": 1, "final": []}}
+    # an executor is created while the event of an older, dropped executor is being collected (the handler's list of events is
+    # rebuilt by a weakref callback at that moment); the exit hook must still reach the new executor's idle worker
+    for kind in ("retry-fast", "timeout"):
+        out["exit/new-executor-while-old-event-is-collected/" + kind] = {"action": "exit", "prog": {
+            "setup": [["build", "old", {"base": {"kind": "sync"}, "layers": [layer(kind)]}], ["sleep", 0.1]],
+            "threads": [[["sleep", 0.5], ["drop_ex", "old"], ["gc"]],
+                        [["sleep", 0.5], ["build", "ex", {"base": {"kind": "sync"}, "layers": [layer(kind)]}]],
+                        [["sleep", 2.0]] + ends("exit", False)],
+            "settle": 1, "final": [["threads"]]}}
     # cancel() of a polled future at the very instant its delegate completes (registration for polling vs cancel)
     out["refs/poll-cancel-at-registration"] = {"action": "forget", "prog": {
         "setup": [["build", "ex", {"base": {"kind": "manual"}, "layers": [dict(layer("poll"), per_sub={"f0.fn": {"after": None}, "f1.fn": {"after": None}}, cancel=[["ret", True]])]}],
